@@ -6,6 +6,7 @@ over every byte stream, every rolling hash (`Roll σ`), every read-fragmentation
 size > 0 and every parameter set accepted by `WFp` — no bound on lengths.
 -/
 import Rustic.Lemmas.Chunker
+import Rustic.Lemmas.ChunkerRabin
 namespace Rustic.Props.C06
 open Rustic.Chunker
 variable {σ : Type}
@@ -101,9 +102,48 @@ theorem fixed_sizes (size : Nat) (hs : 0 < size) (input : Bytes) :
     (∀ i, i + 1 < (fixedSpec size input).length → ((fixedSpec size input)[i]?.getD []).length = size) :=
   fixedSpec_sizes size hs input
 
+/-- (7) The table-driven rolling hash of `rustic_cdc::Rabin64` (out/mod tables, circular window) equals the
+direct remainder computation over the most recent 64 bytes, for every polynomial of degree 8..55 (the
+repository's have degree 53) and every byte sequence. -/
+theorem rolling_hash_is_window_remainder (poly : UInt64) (hlo : 8 ≤ Rustic.Rabin.degree poly)
+    (hhi : Rustic.Rabin.degree poly ≤ 55) (bs : Bytes) :
+    ((bs.foldl (Rustic.Rabin.slide (Rustic.Rabin.Tables.mk' 6 poly))
+        (Rustic.Rabin.reset (Rustic.Rabin.Tables.mk' 6 poly))).hash).toNat =
+      Rustic.Rabin.pmod (Rustic.Rabin.bytesPoly (bs.drop (bs.length - 64))) poly.toNat :=
+  Rustic.Rabin.slide_window_eq_pmod poly hlo hhi bs
+
+/-- (7') `Polynom64::modulo` is *the* polynomial remainder over GF(2): degree bound, existence of a quotient
+(carry-less product `clmul`), uniqueness. -/
+theorem modulo_is_polynomial_remainder (p m : UInt64) (hm : m ≠ 0) :
+    Rustic.Rabin.degree (Rustic.Rabin.modulo p m) < Rustic.Rabin.degree m ∧
+    (∃ q : Nat, p.toNat = Rustic.Rabin.clmul q m.toNat ^^^ (Rustic.Rabin.modulo p m).toNat) ∧
+    (∀ (q r : Nat), p.toNat = Rustic.Rabin.clmul q m.toNat ^^^ r → Rustic.Rabin.pdeg r < Rustic.Rabin.degree m →
+      r = (Rustic.Rabin.modulo p m).toNat) :=
+  Rustic.Rabin.modulo_spec p m hm
+
+/-- (8) What the cut test looks at: at chunk length `L` the value compared with the split mask is the Rabin
+fingerprint of the last 64 bytes of `codeWindowInput` … -/
+theorem cut_test_is_rabin_fingerprint (poly : UInt64) (hlo : 8 ≤ Rustic.Rabin.degree poly)
+    (hhi : Rustic.Rabin.degree poly ≤ 55) (p : Params) (bs : Bytes) (L : Nat) :
+    ((Rustic.Rabin.roll (Rustic.Rabin.Tables.mk' 6 poly)).hash
+        (fpState (Rustic.Rabin.roll (Rustic.Rabin.Tables.mk' 6 poly)) p bs L)).toNat =
+      Rustic.Rabin.pmod (Rustic.Rabin.bytesPoly
+        ((codeWindowInput p bs L).drop ((codeWindowInput p bs L).length - 64))) poly.toNat :=
+  cut_hash_is_fingerprint poly hlo hhi p bs L
+
+/-- (8') … which from `min + 64` on is literally the most recent 64 bytes of the chunk.  For
+`min ≤ L < min + 64` it is not (byte `min − 1` is skipped): the listed known finding, decided by the
+`litwin` channel with the witness in `corpus/C06/window_gap.ops`. -/
+theorem window_is_most_recent_64_bytes_partial (p : Params) (bs : Bytes) (L : Nat) (hL : L ≤ bs.length)
+    (h64 : p.min + 64 ≤ L) :
+    (codeWindowInput p bs L).drop ((codeWindowInput p bs L).length - 64) = (bs.take L).drop (L - 64) :=
+  codeWindow_literal p bs L hL h64
+
 /-! Non-vacuity: the hypotheses are met by concrete, non-trivial parameter sets (the repository default
 and a tiny one below the 4 KiB buffer and below the 64-byte window). -/
 example : WFp { min := 512 * 1024, max := 8 * 1024 * 1024, mask := 0xFFFFF } := ⟨by decide, by decide⟩
 example : WFp { min := 16, max := 100, mask := 63 } := ⟨by decide, by decide⟩
+/-- the crate's default polynomial (degree 53) meets the hypotheses of (7) and (8) -/
+example : 8 ≤ Rustic.Rabin.degree 0x003DA3358B4DC173 ∧ Rustic.Rabin.degree 0x003DA3358B4DC173 ≤ 55 := by decide
 
 end Rustic.Props.C06
